@@ -307,6 +307,13 @@ def harnesses(tier):
         add("dirty[2 collections with prefixes,n=2,stale result files of either prefix]", dict(n=2), sym_dirty2, "dirty2", 0.01)
         add("produced[first n=3 chunk 1, crash<=16, then n=2]", dict(n_first=3, n=2, first_chunk=1, max_crash=16), sym_produced, "produced", 0.02)
         add("produced[first n=2 chunk 2, crash<=12, then n=3]", dict(n_first=2, n=3, first_chunk=2, max_crash=12), sym_produced, "produced", 0.02)
+    # the rollup tool in a directory that still holds the results of an earlier rollup over other inputs
+    from checks import c03 as _c03
+    R = world.mod("mokapot.brew_rollup")
+    for sizes in ([[(1, 1)], [(2, 1)]] if tier == "quick" else [[(2, 1)], [(1, 1), (1, 1)], [(2, 2)]]):
+        cfg = dict(sizes=[list(x) for x in sizes], level="peptide", same_dir=True, stale_outputs=True)
+        hs.append(Harness("rollup_with_own_earlier_outputs[%s,level=peptide,source = destination]" % sizes, cfg, _c03.sym_rollup, real="rollup", functions=[R.do_rollup], bounds=cfg,
+                          stubs=stubs + ["as C03 rollup"], assumptions=["earlier outputs carry the tool's own file root ('rollup.')"], sample_rate=0.2))
     # a run WITH a protein level: no intermediate file (level files include the protein level's) may remain
     from checks import c15
     for cfg in ([dict(n=2, pairs=1, notation_offset=1)] if tier == "quick" else [dict(n=3, pairs=1, notation_offset=1), dict(n=2, pairs=2, notation_offset=0)]):
@@ -501,4 +508,4 @@ def _c15_real(cfg, inp):
     return c15.real_conf_proteins(cfg, inp)
 
 
-REAL = {"dirty2": real_dirty2, "dirty": real_dirty, "produced": real_produced, "verify": real_verify, "conf_proteins": _c15_real}
+REAL = {"dirty2": real_dirty2, "dirty": real_dirty, "produced": real_produced, "verify": real_verify, "conf_proteins": _c15_real, "rollup": lambda cfg, inp: __import__("checks.c03", fromlist=["x"]).real_rollup(cfg, inp)}
